@@ -230,6 +230,11 @@ func (s *Server) readListener(l net.Listener, am *allocation.Manager) {
 				defer cancel()
 				if err := tlsConn.HandshakeContext(ctx); err != nil {
 					s.log.Errorf("TLS handshake failed: %s", err)
+					// The connection is of no use and, being untracked from
+					// here on, out of Server.Close's reach: close it now.
+					if closeErr := conn.Close(); closeErr != nil && !errors.Is(closeErr, net.ErrClosed) {
+						s.log.Errorf("Failed to close conn: %s", closeErr)
+					}
 
 					return
 				}
